@@ -311,6 +311,37 @@ unsigned verif_batch(unsigned dflt)
 	return hr_batch ? 1 + (unsigned)vrng_below(hr_batch) : dflt;
 }
 
+/* S oracle for the accounting clause of C20 (exact counters), in every mode: stats_take() is wrapped at link time
+ * (-Wl,--wrap=stats_take); the counts the runtime books per thread must equal the events that happened on that thread
+ * according to the trace hooks: rollbacks = VK_ROLLBACK, undone events = VK_UNPROCESS, silent re-executions = VK_SILENT,
+ * checkpoints = VK_CKPT, anti-messages = VK_ANTI_LOCAL + VK_ANTI_REMOTE, forward executions = VK_FORWARD (+ LP_INIT). */
+#include <log/stats.h>
+enum { AC_RB, AC_UNDONE, AC_SILENT, AC_CKPT, AC_ANTI, AC_N };
+static unsigned long ac_booked[VS_MAXT][AC_N], ac_seen[VS_MAXT][AC_N];
+extern void __real_stats_take(enum stats_thread_type this_stat, uint_fast64_t c);
+void __wrap_stats_take(enum stats_thread_type this_stat, uint_fast64_t c)
+{
+	unsigned r = rid;
+	if(r < VS_MAXT)
+		switch(this_stat) {
+			case STATS_ROLLBACK: ac_booked[r][AC_RB] += c; break;
+			case STATS_MSG_ROLLBACK: ac_booked[r][AC_UNDONE] += c; break;
+			case STATS_MSG_SILENT: ac_booked[r][AC_SILENT] += c; break;
+			case STATS_CKPT: ac_booked[r][AC_CKPT] += c; break;
+			case STATS_MSG_ANTI: ac_booked[r][AC_ANTI] += c; break;
+			default: break;
+		}
+	__real_stats_take(this_stat, c);
+}
+static unsigned long ac_mismatch(void)
+{
+	unsigned long bad = 0;
+	for(unsigned r = 0; r < VS_MAXT; ++r)
+		for(int k = 0; k < AC_N; ++k)
+			bad += ac_booked[r][k] != ac_seen[r][k];
+	return bad;
+}
+
 /* classification of an exhausted step budget:
  *  - "hang":    no trace event at all for a long time (threads only spin): deadlock / livelock in runtime code;
  *  - "nonterm": the run keeps making progress although the termination condition of property C08 (every LP of this rank has its
@@ -349,6 +380,15 @@ void verif_trace(unsigned kind, uint64_t a, uint64_t b, uint64_t c)
 		n_ev[kind]++;
 	if(kind != VK_NODE_PHASE)
 		last_event_step = vs_steps;
+	if(rid < VS_MAXT)
+		switch(kind) {
+			case VK_ROLLBACK: ac_seen[rid][AC_RB]++; break;
+			case VK_UNPROCESS: ac_seen[rid][AC_UNDONE]++; break;
+			case VK_SILENT: ac_seen[rid][AC_SILENT]++; break;
+			case VK_CKPT: ac_seen[rid][AC_CKPT]++; break;
+			case VK_ANTI_LOCAL: case VK_ANTI_REMOTE: ac_seen[rid][AC_ANTI]++; break;
+			default: break;
+		}
 	if(kind == VK_GVT)
 		term_ready_check();
 	if(!mode_par && !mode_dist)
@@ -657,11 +697,11 @@ static void print_stats(const char *outcome)
 	printf("{\"outcome\":\"%s\",\"lines\":%lu,\"dispatch\":%lu,\"frozen_dispatch\":%lu,\"fwd\":%lu,\"rollbacks\":%lu,"
 	       "\"silent\":%lu,\"antis\":%lu,\"gvt\":%lu,\"ckpt\":%lu,\"fossil\":%lu,\"msgs\":%llu,\"steps\":%llu,"
 	       "\"switches\":%llu,\"s_below_gvt\":%lu,\"s_rb_mismatch\":%lu,\"s_double_free\":%lu,\"s_rb_checked\":%lu,"
-	       "\"s_rb_after_fossil\":%lu,\"s_gvt_decrease\":%lu,\"s_gvt_disagree\":%lu,\"allocs\":%lu,\"frees\":%lu,\"votes\":%lu,\"s_vote_false_pred\":%lu,\"s_vote_uncommitted\":%lu,\"antis_remote\":%lu,\"early_antis\":%lu,\"fossil_attempts\":%lu",
+	       "\"s_rb_after_fossil\":%lu,\"s_gvt_decrease\":%lu,\"s_gvt_disagree\":%lu,\"allocs\":%lu,\"frees\":%lu,\"votes\":%lu,\"s_vote_false_pred\":%lu,\"s_vote_uncommitted\":%lu,\"s_stats_mismatch\":%lu,\"antis_remote\":%lu,\"early_antis\":%lu,\"fossil_attempts\":%lu",
 	    outcome, n_lines, n_dispatch, n_frozen_dispatch, n_fwd, n_rollbacks, n_silent, n_antis, n_gvt, n_ckpt, n_fossil,
 	    (unsigned long long)next_ord, (unsigned long long)vs_steps, (unsigned long long)vs_switches, s_below_gvt,
 	    s_rb_mismatch, s_double_free, s_rb_checked, s_rb_after_fossil, s_gvt_decrease, s_gvt_disagree, n_alloc, n_free,
-	    n_votes, s_vote_false_pred, s_vote_uncommitted, n_ev[39], n_ev[38], n_fossil_attempts);
+	    n_votes, s_vote_false_pred, s_vote_uncommitted, ac_mismatch(), n_ev[39], n_ev[38], n_fossil_attempts);
 #ifdef VERIF_FAKE_PEER
 	printf(",\"peer_events\":%lu,\"peer_antis\":%lu,\"peer_anti_with_event\":%lu,\"peer_responses\":%lu,\"peer_got_events\":%lu,"
 	       "\"peer_got_antis\":%lu,\"peer_rounds\":%lu,\"peer_forced_deliveries\":%lu,\"s_remote_id_not_unique\":%lu",
